@@ -2,6 +2,7 @@ package props
 
 import (
 	"bytes"
+	"context"
 	"encoding/json"
 	"fmt"
 	"math/big"
@@ -9,6 +10,7 @@ import (
 	"strings"
 	"testing"
 
+	"github.com/aundis/formula"
 	"pgregory.net/rapid"
 
 	"verif/internal/h"
@@ -249,6 +251,132 @@ func respell(t *rapid.T, d decOperand) (string, *big.Rat) {
 		s = "(" + d.lit(0) + " + 0)"
 	}
 	return s, exact
+}
+
+// c05Pool: operand values as a caller would put them into the data map.
+var c05Pool = []struct {
+	name string
+	v    interface{}
+}{
+	{"s10", "10"}, {"s9", "9"}, {"sapple", "apple"}, {"sbanana", "banana"}, {"sempty", ""}, {"sA", "A"},
+	{"i10", 10}, {"i9", 9}, {"i2", int64(2)}, {"f2_5", 2.5}, {"im1", -1}, {"i0", 0},
+	{"bt", true}, {"bf", false}, {"nul", nil},
+}
+
+// checkReuse: one parsed comparison formula over the names a and b is evaluated for a sequence of records
+// whose operands change kind (strings, numbers, booleans, null); every evaluation must equal that of a
+// freshly parsed formula with the same record, and obey trichotomy for number and string pairs.
+func checkReuse(seq [][2]int) string {
+	const f = "[a < b, a == b, a > b, a <= b, a >= b, a != b, a === b, a !== b]"
+	shared := obs.Parse([]byte(f))
+	if !shared.OK() {
+		return "HARNESS: " + f + " does not parse"
+	}
+	hist := ""
+	for step, pr := range seq {
+		x, y := c05Pool[pr[0]%len(c05Pool)], c05Pool[pr[1]%len(c05Pool)]
+		hist += fmt.Sprintf(" (a=%s,b=%s)", x.name, y.name)
+		mk := func() *formula.Runner {
+			r := formula.NewRunner()
+			r.SetThis(map[string]interface{}{"a": x.v, "b": y.v})
+			return r
+		}
+		got := obs.Eval(mk(), context.Background(), shared.Src.Expression)
+		fresh := obs.Eval(mk(), context.Background(), obs.Parse([]byte(f)).Src.Expression)
+		if got.Panic != nil || got.String() != fresh.String() {
+			return fmt.Sprintf("record %d of the sequence%s: the formula parsed once and used for every record gives %s, a freshly parsed one gives %s", step+1, hist, got, fresh)
+		}
+		arr, ok := got.Val.([]interface{})
+		if got.Err != nil || !ok || len(arr) != 8 {
+			continue // mixed kinds may be an error: not asserted here
+		}
+		var cmp, known = 0, false
+		switch xv := x.v.(type) {
+		case string:
+			if yv, ok := y.v.(string); ok {
+				cmp, known = strings.Compare(xv, yv), true
+			}
+		case int, int64, float64:
+			xf, yf := toF(x.v), toF(y.v)
+			if _, isNum := y.v.(string); !isNum && y.v != nil {
+				if _, isBool := y.v.(bool); !isBool {
+					known = true
+					switch {
+					case xf < yf:
+						cmp = -1
+					case xf > yf:
+						cmp = 1
+					}
+				}
+			}
+		}
+		if known {
+			want := []bool{cmp < 0, cmp == 0, cmp > 0, cmp <= 0, cmp >= 0, cmp != 0, cmp == 0, cmp != 0}
+			for i, w := range want {
+				if b, ok := arr[i].(bool); !ok || b != w {
+					return fmt.Sprintf("record %d of the sequence%s: element %d of %s is %s, want %v", step+1, hist, i, f, obs.Show(arr[i]), w)
+				}
+			}
+		}
+	}
+	return ""
+}
+
+func toF(v interface{}) float64 {
+	switch x := v.(type) {
+	case int:
+		return float64(x)
+	case int64:
+		return float64(x)
+	case float64:
+		return x
+	}
+	return 0
+}
+
+// TestC05TreeReuse: the comparison operators do not remember the operands they saw before.
+func TestC05TreeReuse(t *testing.T) {
+	run := h.Begin("C05", "tree-reuse", fmt.Sprintf("bounded-exhaustive over ordered pairs of records + rapid sequences of 2-6 records: one parsed formula [a < b, a == b, ..., a !== b] evaluated for records whose operands come from the data map and change kind between records (%d values: strings incl. numeric text, Go ints, int64, float64, booleans, null); oracle: every evaluation equals that of a freshly parsed formula with the same record, and number/number and string/string records obey the statement's order; non-trivial: the kind of an operand changes between consecutive records", len(c05Pool)))
+	defer run.End(t)
+	n := len(c05Pool)
+	var idx int64
+	for p := 0; p < n*n; p++ {
+		for q := 0; q < n*n; q++ {
+			idx++
+			if !h.Mine(idx) || run.NViolations() >= 3 || (p*7+q)%5 != 0 { // a fifth of all ordered pairs of records
+				continue
+			}
+			seq := [][2]int{{p / n, p % n}, {q / n, q % n}}
+			run.Count(true, "pairs")
+			if msg := checkReuse(seq); msg != "" {
+				run.Fail("c05-reuse", seq, msg)
+			}
+		}
+	}
+	h.RapidSetup(h.N(1500, 300000), "c05reuse")
+	rapid.Check(t, func(rt *rapid.T) {
+		k := rapid.IntRange(2, 6).Draw(rt, "len")
+		var seq [][2]int
+		for i := 0; i < k; i++ {
+			seq = append(seq, [2]int{rapid.IntRange(0, n-1).Draw(rt, "x"), rapid.IntRange(0, n-1).Draw(rt, "y")})
+		}
+		run.CountKey(fmt.Sprint(seq), true, "sequences")
+		run.Sample("sequences", seq)
+		if msg := checkReuse(seq); msg != "" {
+			run.Pending("reuse", "c05-reuse", seq, msg)
+			rt.Fatalf("%s", msg)
+		}
+	})
+}
+
+func init() {
+	h.RegisterReplay("c05-reuse", func(raw json.RawMessage) string {
+		seq, err := h.Decode[[][2]int](raw)
+		if err != nil {
+			return "bad replay: " + err.Error()
+		}
+		return checkReuse(seq)
+	})
 }
 
 // TestC05Random: random decimals in random spellings, near neighbours, random byte strings.
